@@ -4,6 +4,9 @@
 
    ren old new l := if l = old then new else l   (Proofs/SemRenameGate.v)
    Eval c a l v  is the relational semantics of Model/Sem.v (tied to the evaluators by C01). *)
+(* the simple Circuit methods these theorems rest on are regenerated from the source (translator T9)
+   and proved equal to the model: keep those equality lemmas in this property's proof cone *)
+Require Cirbo.Proofs.CircuitCoreGen Cirbo.Proofs.CircuitCoreGen2.
 Require Import Cirbo.Model.Base Cirbo.Model.Gate Cirbo.Model.Den Cirbo.Model.Circuit Cirbo.Model.Connect
         Cirbo.Model.Eval Cirbo.Model.Sem Cirbo.Model.History Cirbo.Model.WF.
 Require Import Cirbo.Proofs.WFEmplace Cirbo.Proofs.WFStep Cirbo.Proofs.SemExt Cirbo.Proofs.SemRenameGate
